@@ -25,6 +25,8 @@ theorem same_trans {a b c : Attr} (h : a.same b = true) (h' : b.same c = true) :
 /-- no two attrs of the list answer to the same tag / name / namespace -/
 def NodupKeys (l : List Attr) : Prop := l.Pairwise (fun a b => a.same b = false)
 
+instance (l : List Attr) : Decidable (NodupKeys l) := by unfold NodupKeys; infer_instance
+
 /-- the attrs of `c` whose key differs from `k`'s -/
 def strip (k : Attr) (c : List Attr) : List Attr := c.filter (fun x => !x.same k)
 
